@@ -365,6 +365,47 @@ def _summaries(ctx, W):
     return sm
 
 
+def _yields_own_children(it, fn, W, who) -> bool:
+    """`it` is a call of a generator function every `yield` of which hands out a member of `<p>.children` / `<p>.property_groups`
+    (a loop variable over it, or `yield from` it) for a parameter p that the call binds to a target of the calling function"""
+    from ._c09_summary import bind, own_params, writer_callees
+
+    for callee in writer_callees(it, W, fn.node):
+        actuals = bind(callee, it)
+        params = set(own_params(callee))
+        sources = set()
+        yields = [y for y in ast.walk(callee.node) if isinstance(y, (ast.Yield, ast.YieldFrom))]
+        if not yields:
+            return False
+
+        def member_source(e):
+            """parameter p when e is `p.children` / `p.property_groups` (possibly wrapped in list()/tuple()/sorted()/.copy())"""
+            while isinstance(e, ast.Call) and ((isinstance(e.func, ast.Name) and e.func.id in ("list", "tuple", "sorted", "reversed", "iter") and len(e.args) == 1)
+                                               or (isinstance(e.func, ast.Attribute) and e.func.attr == "copy" and not e.args)):
+                e = e.args[0] if isinstance(e.func, ast.Name) else e.func.value
+            if isinstance(e, ast.Attribute) and e.attr in ("children", "property_groups") and isinstance(e.value, ast.Name) and e.value.id in params:
+                return e.value.id
+            return None
+
+        for y in yields:
+            src = None
+            if isinstance(y, ast.YieldFrom):
+                src = member_source(y.value)
+            elif isinstance(y.value, ast.Name):
+                for lp in ast.walk(callee.node):
+                    if isinstance(lp, (ast.For, ast.comprehension)) and isinstance(lp.target, ast.Name) and lp.target.id == y.value.id and any(x is y for x in ast.walk(lp)):
+                        src = member_source(lp.iter)
+            if src is None:
+                return False
+            sources.add(src)
+        for src in sources:
+            a = actuals.get(src)
+            if a is None or not (unparse(a) in who.params and unparse(a) in TARGET_PARAMS):
+                return False
+        return True
+    return False
+
+
 def rule_prov(ctx) -> RuleResult:
     res = RuleResult(
         "C09.PROV",
@@ -466,6 +507,8 @@ def rule_prov(ctx) -> RuleResult:
                                 it = unparse(lp.iter)
                                 if any(it == f"{a}.children" or it == f"{a}.property_groups" for a in who.params if a in TARGET_PARAMS):
                                     ok = True
+                                elif _yields_own_children(lp.iter, fn, W, who):
+                                    ok = True  # a generator helper that selects among the target's children
                     if not ok and isinstance(arg, ast.Constant):
                         ok = True  # None / a literal default: no entity is designated
                     res.inst(f"H5Writer.{name}:{c.lineno} -> H5Writer.{cname}(…, {txt[:30]})", ok=ok)
